@@ -52,6 +52,8 @@ def probe38(name):
         state = "unset"
     with open(os.path.join(d, "log"), "a") as f:
         f.write(f"{name}\n")
+    if state.startswith("fail"):
+        raise ValueError(f"probe {name} {state}")      # the cause of the failure lives outside, and can be repaired
     return ["probe", name, state]
 
 
